@@ -16,7 +16,8 @@ PURE_FUNCS = {
 } | {'itertools.product', 'itertools.combinations', 'itertools.permutations', 'collections.Counter',
      'networkx.DiGraph', 'networkx.find_cycle', 'datetime.datetime.now'}
 PURE_METHODS = set(
-    'index count replace upper lower zfill join startswith endswith split strip find format astype tolist copy reshape '
+    'index count replace upper lower zfill join startswith endswith split strip lstrip rstrip rjust ljust center find rfind '
+    'isdigit isalpha partition rpartition splitlines title capitalize encode format astype tolist copy reshape '
     'ravel view items keys values get T sum max min mean all any nonzero argsort argmax valid total_seconds '
     'flatten transpose'.split())
 EXTERNAL_MUTATORS = {'numpy.random.shuffle': [0], 'numpy.copyto': [0], 'numpy.put': [0], 'numpy.place': [0],
